@@ -1,4 +1,5 @@
 import SpecterModel.C01.Drv
+import SpecterModel.C08.Drv
 import SpecterModel.C09.Drv
 import SpecterModel.C11.Drv
 import SpecterModel.C12.Drv
@@ -40,6 +41,7 @@ import SpecterModel.C51.Drv
 def main (args : List String) : IO UInt32 := do
   match args with
   | ["C01"] => do Specter.C01.main; return 0
+  | ["C08"] => do Specter.C08.main; return 0
   | ["C09"] => do Specter.C09.main; return 0
   | ["C11"] => do Specter.C11.main; return 0
   | ["C12"] => do Specter.C12.main; return 0
